@@ -21,6 +21,11 @@ def run(chk, tier):
             rows[k] = rows.get(k, 0) + v
         spec_group.check_iterators(chk, lib, limit=4)
         spec_group.check_bases(chk, lib, limit=6)
+    import e4
+    import gtab
+    import gen
+    e4.check(chk, ("cursor",), tier)
+    gtab.check(chk, gen.facts(), which=("sizes",))
     chk.extra["cursor_rows_seen"] = rows
     chk.floor("cursor rows (48 = 5 kinds x 10 primitives minus skip setters)", len(rows), 48)
     n = sum(v for k, v in chk.rule_counts.items() if k.startswith("CUR."))
@@ -34,5 +39,7 @@ def run(chk, tier):
                      "for init kinds, SIZE_CHECK on the base actually accessed, no other write. Plus cursor_range / "
                      "input_iterator rows and message_base::size_bytes(cursor) = c - begin. Decides the per-call rows for "
                      "all inputs; the product space of call sequences is not explored (induction over members stated in "
-                     "DESIGN.md); generator-side cursor offsets are validated per corpus schema by E4 (C01/C02 checks)."),
+                     "DESIGN.md). E4: every generated cursor accessor of the corpus forwards to the right primitive flavour (last field -> "
+                     "get_last_*, first group/data -> get_first_*) with relative/absolute offsets equal to the XML model's; the "
+                     "generator's size tables (used for its cursor offset recomputation) equal the SBE sizes."),
         rule_text="instances = (row, instantiation); distinct by (row, template arguments); each compares affine normal forms")
